@@ -188,8 +188,8 @@ func checkC09(sc *Scenario) *CheckOut {
 			case it.K == "enter" && it.H == hook:
 				hookEnters++
 			case it.K == "rec":
-				if it.V != "true:"+fmt.Sprint(want) {
-					fail(rec, "recover-value", "the hook found %q under CTXRecoverResult, the handler panicked with %q", it.V, fmt.Sprint(want))
+				if it.V != fmt.Sprintf("true:%T:%v", want, want) {
+					fail(rec, "recover-value", "the hook found %q under CTXRecoverResult, the handler panicked with %q", it.V, fmt.Sprintf("%T:%v", want, want))
 				}
 			case it.H == hook || it.K == "unwind":
 			case it.K == "enter" && it.H != sc.Options.OnError:
